@@ -1,7 +1,7 @@
 """C05 - parsing is total (only the dialect-monotonicity clause is decided statically)."""
 import re
 
-from kern import bool_call_edges, bool_local_edges, short_fn, top_fn
+from kern import bool_call_edges, bool_local_edges, callers, short_fn, top_fn
 
 DESCRIPTION = ("C05 clause decided: 'enabling more dialect features never turns an accepted file into a rejected one or "
                "changes its tree'. R1 no function of the lexer, the recursive-descent parser or the cursors reads a "
@@ -168,9 +168,47 @@ def r4_no_decrement_after_helper(ctx, F):
     ctx.floor("C05.R4", "`pos() - const` computations in the lexer", n, 3)
 
 
+# reviewed callers of the PANICKING line accessors of CodeMap (line_span, line_span_trim_newline, source_line):
+# each takes its line number from the same code map
+LINE_ACCESS_OK = {
+    "CodeMap::find_line_col": "line from find_line(pos) of the same map",
+    "CodeMap::line_span_trim_newline": "wrapper (its callers are checked)",
+    "CodeMap::source_line": "wrapper (its callers are checked)",
+    "CodeMap::source_line_at_pos": "line from find_line(pos) of the same map",
+    "span_display::convert_span_to_slice": "lines of a span resolved against the same map",
+    "LintSuppressionsBuilder::parse_comment": "the line of the comment token being parsed (resolved from its own span)",
+    "find::has_unused_marker_in_range": "lines of a resolved span of the same map",
+}
+
+
+def r5_line_accessors(ctx, F, rule="C05.R5", crates=("starlark_syntax", "starlark")):
+    """CodeMap::line_span / line_span_trim_newline / source_line panic when the line does not exist; a line number that
+    comes from outside the map - "the line after this one", a position sent by an editor against a stale parse - must go
+    through line_span_opt. Only reviewed callers, whose line number is derived from the same map, use the panicking
+    forms."""
+    from kern import reviewed
+    n = 0
+    for pat in (r"codemap::CodeMap::line_span$", r"codemap::CodeMap::line_span_trim_newline$",
+                r"codemap::CodeMap::source_line$"):
+        for f, c in callers(F, pat):
+            if f.crate not in crates:
+                continue
+            n += 1
+            who = short_fn(top_fn(F, f).qpath)
+            why = reviewed(F, LINE_ACCESS_OK, who)
+            ctx.check(why is not None, rule, "panicking-line-accessor:%s<-%s" % (pat.split("::")[-1].rstrip("$"), who),
+                      "reviewed: " + (why or ""),
+                      "`%s` calls the panicking `CodeMap::%s` and is not a reviewed caller: if its line number can lie "
+                      "past the end of the file (the line after the last one, an editor position against a stale parse) "
+                      "parsing / the language server panics instead of answering; use line_span_opt"
+                      % (who, pat.split("::")[-1].rstrip("$")), fn=f, line=c.line)
+    ctx.floor(rule, "calls of the panicking line accessors", n, 4)
+
+
 def run(ctx):
     F = ctx.facts("core")
     r3_lexer_positions(ctx, F)
+    r5_line_accessors(ctx, F)
     r4_no_decrement_after_helper(ctx, F)
     readers = []
     for f in F.fns.values():
